@@ -319,6 +319,17 @@ def check(chk, repo, tier):
     tb = elements.function("to_base")
     fb = elements.function("from_base")
     to_base_model(chk, repo, LF, tb)
+    from .c08 import tower_unaware_tests
+    for fn_ in (tb, fb):
+        bad = tower_unaware_tests(fn_)
+        chk.ob("C15.base-recognised-as-number", f"elements.{fn_.name}",
+               not bad,
+               (f"`{bad[0][1]}` tells a numeric base from a digit alphabet by "
+                "python class: a base written in the program (16τ) is a "
+                "sympy Integer and is then taken for an alphabet - its "
+                "decimal digits become the digits") if bad else "", LF,
+               bad[0][0].lineno if bad else fn_.lineno,
+               witness="255 16τ")
     calls = {(dotted(c.func) or "").split(".")[-1] for c in ast.walk(fb)
              if isinstance(c, ast.Call)}
     chk.ob("C15.base-elements", "elements.from_base",
